@@ -49,13 +49,13 @@ def handle (line : String) : String :=
   | ["stream", ps, script, file] =>
     match ps.toNat?, parseScript script, parseFile file with
     | some ps, some sc, some (f, hex) =>
-      let o := stream (fileServer f) ps (f.length + 2) 0
+      let o := stream (fileServer f) (fun _ => 5) ps (f.length + 2) 0
       let (rs, ok) := showReqs (scriptFn sc) ps o.reqs 0
       -- a failing block ends the download: only the blocks before it were written
       let nw := if ok then o.writes.length else rs.length - 1
       let ws := (o.writes.take nw).map (showData hex)
       if !o.done then "no-stop" else
-      if ok then s!"ok w={joinOr ws} r={joinOr rs}" else s!"err r={joinOr rs}"
+      if ok then s!"ok t={if o.typ.isSome then "some" else "none"} w={joinOr ws} r={joinOr rs}" else s!"err r={joinOr rs}"
     | _, _, _ => "bad-op"
   | ["par", ps, script, events, file] =>
     match ps.toNat?, parseScript script, parseEvents events, parseFile file with
@@ -63,15 +63,22 @@ def handle (line : String) : String :=
       let k := (evs.filter (· == .alloc)).length
       let failing := (List.range k).any (fun i => !(attempts (scriptFn sc i)).2)
       if failing then "err" else
-      match prun (fileServer f) ps {} evs with
+      match prun (fileServer f) (fun _ => 5) ps {} evs with
       | none => "trace-not-enabled"
       | some s =>
         if !s.finished then s!"not-finished held={s.held.length} stopped={s.stopped}" else
         let ws := (s.writes.foldl (fun acc w => insertByOff w acc) []).map
           (fun w => s!"{w.1}:{showData hex w.2}")
         let rs := (List.range s.k).map (fun i => s!"{offsetOf i ps}:{ps}:{(attempts (scriptFn sc i)).1}")
-        s!"ok w={joinOr ws} r={joinOr rs}"
+        s!"ok t={if s.typ.isSome then "some" else "none"} w={joinOr ws} r={joinOr rs}"
     | _, _, _, _ => "bad-op"
+  | ["streamhuge", ps, size] =>
+    -- files beyond 2 GiB: requests on lengths only
+    match ps.toNat?, size.toNat? with
+    | some ps, some size =>
+      let rs := streamReqs size ps (size / (if ps = 0 then 1 else ps) + 3) 0
+      "r=" ++ joinOr (rs.map (fun r => s!"{r.1}:{r.2}"))
+    | _, _ => "bad-op"
   | _ => "bad-op"
 
 def main : IO Unit := runDriver handle
